@@ -94,10 +94,6 @@ def build(diagram):
         home = lambda kl: c1 if kl in first else out
     else:
         raise ValueError(layout)
-    own_id = set()
-    for r in diagram['rels']:
-        if r[0] == 'linked':
-            own_id.discard(r[2])
     for numb, (name, kl, attrs, derived, id2) in enumerate(diagram['classes']):
         b.clazz(name, kl, numb + 1, home(kl))
     # classes that are subtypes or link classes are identified by their referential attributes
